@@ -7,7 +7,9 @@ CONSTANTS
   UseD = FALSE
   StartModes <- StartAll
   FixD5 = TRUE
-  FixD6 = TRUE
+  FixInit = TRUE
+  FixDetach = TRUE
+  FixUpdater = TRUE
   CfgOK <- CfgSame
 SPECIFICATION MCSpec
 VIEW View
